@@ -10,7 +10,7 @@ are part of the MAC input / additional data).  What ideal record protection guar
 `auth` is a hypothesis of the theorems (`Props.C16.Ideal`), not part of the model.
 
 Order inside both paths (regenerated facts `replayRxReadFromOrder`, `replayRxRecordOrder` =
-decrypt, epoch test, window check): a record reaches the epoch comparison and
+decrypt, epoch < readEpoch, epoch > readEpoch, window check): a record reaches the epoch comparison and
 `replayWindow.check` only after `decrypt` succeeded.
 
 `RxParams` tells which text `readRecordOrCCS` has.  `false` — the code before the repair of
